@@ -1,5 +1,6 @@
 (* C31 wire functions.
-   input : VL [VZ mx; VZ M; VL [VB chunk ...]]   NewDecoder(mx); SetMaxStringLength(M) (0 = unlimited);
+   input : VL [VZ mx; VZ M; VZ k; VL [VB chunk ...]]   NewDecoder(mx); SetMaxStringLength(M) (0 = unlimited);
+                                                 emit budget k: SetEmitEnabled(false) after k emitted fields (-1 = never);
                                                  Write(chunk) for each chunk until an error; Close()
    output: VL [VL fields; VZ status; VZ tableSize; VZ tableMax; VZ tableEntries]  (status 0 = no error;
            ErrStringLength and ErrInvalidHuffman are one class, 4), or VL [VZ -2] when the implementation panicked *)
@@ -8,25 +9,25 @@ From Bfe Require Import lib.Val lib.Bytes model.Huffman model.Hpack.
 Import ListNotations.
 Open Scope Z_scope.
 
-Definition decode_input (i : val) : option (Z * Z * list bytes) :=
+Definition decode_input (i : val) : option (Z * Z * Z * list bytes) :=
   match i with
-  | VL [VZ mx; VZ M; VL chunks] => match all_some (map as_B chunks) with Some l => Some (mx, M, l) | None => None end
+  | VL [VZ mx; VZ M; VZ k; VL chunks] => match all_some (map as_B chunks) with Some l => Some (mx, M, k, l) | None => None end
   | _ => None
   end.
-Definition observe (hd : bytes -> hres) (mx M : Z) (chunks : list bytes) : val :=
-  let '(d, fs, st) := dec_run_lim hd M (new_decoder mx) chunks [] in
+Definition observe (hd : bytes -> hres) (mx M k : Z) (chunks : list bytes) : val :=
+  let '(d, fs, st) := dec_run_e hd M (new_decoder mx) k chunks [] in
   if st =? ST_PANIC then VL [VZ (-2)]
   else VL [fields_val fs; VZ st; VZ (dsize (ddt d)); VZ (dmax (ddt d)); vnat (length (ents (ddt d)))].
 (* the model: Huffman strings are decoded by the RFC bit-level decoder (= the byte-trie decoder, C31_trie_equals_bitlevel) *)
 Definition run_C31 (i : val) : val :=
   match decode_input i with
-  | Some (mx, M, chunks) => observe huff_decode_spec mx M chunks
+  | Some (mx, M, k, chunks) => observe huff_decode_spec mx M k chunks
   | None => VErr 0
   end.
 (* same observation with the transcription of the byte-trie Huffman decoder *)
 Definition run_C31_trie (i : val) : val :=
   match decode_input i with
-  | Some (mx, M, chunks) => observe huff_decode mx M chunks
+  | Some (mx, M, k, chunks) => observe huff_decode mx M k chunks
   | None => VErr 0
   end.
 Definition agree_C31 (i o : val) : bool := val_eqb (run_C31 i) o && val_eqb (run_C31_trie i) o.
@@ -35,28 +36,33 @@ Definition agree_C31 (i o : val) : bool := val_eqb (run_C31 i) o && val_eqb (run
    input, the implementation reports no error, emitted exactly the reference fields and holds a table of
    the same size and entry count - or, when a string length limit M is set, it reports an error and the limit
    explains it (a reference field has a name or value longer than M, or the input itself is longer than M bytes);
-   if the reference rejects the input, the implementation reported an error. *)
+   if the reference rejects the input, the implementation reported an error - except that once emitting has been
+   disabled (budget k >= 0) strings of literals that are not indexed are skipped without Huffman validation
+   (documented in readString), so an accepted input is tolerated there.  With a budget k only the first k
+   reference fields are emitted; the table must be the reference table all the same. *)
 Definition limit_explains (M : Z) (want : list field) (input : bytes) : bool :=
   negb (M =? 0) &&
   (existsb (fun f => (blen (fname f) >? M) || (blen (fvalue f) >? M)) want || (blen input >? M)).
 Definition prop_C31 (i o : val) : bool :=
   match decode_input i, o with
-  | Some (mx, M, chunks), VL [fsv; VZ st; VZ sz; VZ _; VZ n] =>
+  | Some (mx, M, k, chunks), VL [fsv; VZ st; VZ sz; VZ _; VZ n] =>
     match rfc_decode mx (concat chunks), val_fields fsv with
     | Some (t, want), Some fs =>
-      ((st =? 0) && fields_eqb fs want && (sz =? tab_size (rents t)) && (n =? Z.of_nat (length (rents t))))
+      ((st =? 0) && fields_eqb fs (take_b k want) && (sz =? tab_size (rents t)) && (n =? Z.of_nat (length (rents t))))
       || (negb (st =? 0) && limit_explains M want (concat chunks))
-    | None, Some _ => negb (st =? 0)
+    | None, Some _ => negb (st =? 0) || (0 <=? k)
     | _, None => false
     end
   | _, _ => false
   end.
 Definition kf_C31 (i : val) : Z := 0.
 
-(* well-formed inputs covered by the central theorem: default string limit (M = 0).  Inputs with M > 0 are also
-   generated and checked (agree/prop) but not covered by the theorem. *)
+(* well-formed inputs covered by the central theorem: default string limit (M = 0) and, when an emit budget is set,
+   inputs the reference accepts.  The other generated inputs are checked (agree/prop) but not covered by it. *)
 Definition wf_C31 (i : val) : bool :=
   match decode_input i with
-  | Some (mx, M, chunks) => (0 <=? mx) && (M =? 0) && forallb wf_bytes chunks
+  | Some (mx, M, k, chunks) =>
+    (0 <=? mx) && (M =? 0) && forallb wf_bytes chunks
+    && ((k <? 0) || match rfc_decode mx (concat chunks) with Some _ => true | None => false end)
   | None => false
   end.
